@@ -43,6 +43,8 @@ type Run struct {
 	knownOpen    map[string]Finding
 	knownSeen    map[string]bool
 	inconclusive []string
+	undecided    []string
+	undecidedTol int
 	replayN      int
 	childN       int
 	childSamples int
@@ -306,6 +308,27 @@ func (r *Run) Inconclusive(reason string) {
 	r.mu.Unlock()
 }
 
+// Undecided records a scenario that the harness had to abandon without a verdict (a
+// watchdog fired, a connection could not be set up, the server dropped a harness client
+// under load).  Nothing is claimed about such a scenario.  A few of them are tolerated
+// (TolerateUndecided, default 2) as long as every non-vacuity floor is still met; more than
+// that makes the whole run inconclusive.  They are listed in the evidence.
+func (r *Run) Undecided(reason string) {
+	if childEmit(childLine{T: "und", S: reason}) {
+		return
+	}
+	r.mu.Lock()
+	r.undecided = append(r.undecided, reason)
+	r.mu.Unlock()
+}
+
+// TolerateUndecided sets how many abandoned scenarios a run may have (at least 2).
+func (r *Run) TolerateUndecided(n int) {
+	r.mu.Lock()
+	r.undecidedTol = n
+	r.mu.Unlock()
+}
+
 // Floor enforces non-vacuity: a run that observed fewer than want of something
 // that the deterministic case list produces by construction is inconclusive.
 func (r *Run) Floor(name string, got, want int64) {
@@ -357,6 +380,15 @@ func (r *Run) Finish(level, rule string) {
 	sort.Strings(ks)
 	if len(ks) > 0 {
 		cov["known_findings_reproduced"] = ks
+	}
+	if n := len(r.undecided); n > 0 {
+		cov["undecided_scenarios"] = n
+		cov["undecided_reasons"] = r.undecided[:min(n, 20)]
+		if n > max(r.undecidedTol, 2) {
+			r.inconclusive = append(r.inconclusive, fmt.Sprintf("%d scenarios were abandoned without a verdict (tolerated: %d), e.g. %s", n, max(r.undecidedTol, 2), r.undecided[0]))
+		} else {
+			r.assumptions = append(r.assumptions, fmt.Sprintf("%d scenario(s) abandoned by a watchdog or a lost harness connection are not judged (tolerated: %d; all non-vacuity floors are met without them)", n, max(r.undecidedTol, 2)))
+		}
 	}
 	if len(r.inconclusive) > 0 {
 		cov["inconclusive"] = r.inconclusive
